@@ -227,6 +227,21 @@ CHECKS = {
         "output path does not alias an input; split does not remove stale temporary files of a failed earlier run.",
    technique="Coq invariant proof over protocol traces + trace translator + fault enumeration on the real tasks",
    design="5/C10"),
+ "C05": dict(
+   text="Machine-checked proof (Coq 8.16.1, over Q) about a Gallina model of get_emodulus: the scaling laws with their "
+        "guards, normalisation, the pixelation offset formula, barycentric interpolation inside a triangle, the NaN-"
+        "outside rule, both computation routes, numpy broadcasting of per-event viscosities: each route equals the "
+        "small specification (scaled piecewise-linear interpolation) relative to an ARBITRARY triangulation function; "
+        "routes agree; per-event independence and permutation equivariance; proportionality to viscosity and flow "
+        "rate; joint geometric rescale invariance (proved also for the real pixelation formula); NaN iff in no "
+        "triangle; node values, min/max bounds, shared edges. PARTIAL: qhull's triangulation, exp, the viscosity "
+        "models and rounding are oracles; the harness hands scipy's simplices and math.exp values to the model.",
+   note="Trusted: Coq kernel+vm_compute (Lqa/lra over Q, no Reals); qhull Delaunay (oracle; tiling, non-degeneracy and "
+        "empty circumcircle checked per run), np.exp (a function of its argument), viscosity models (transcribed in "
+        "the harness and compared with the real functions), binary64 rounding (1e-9 relative tolerance; NaN sets "
+        "compared exactly outside a 1e-9 band around the hull / 1e-12 around triangle edges).",
+   technique="Coq proofs over Q relative to a triangulation oracle + vm_compute correspondence with scipy's simplices + metamorphic oracle",
+   design="5/C05"),
 }
 
 def main():
